@@ -6,6 +6,7 @@ import (
 	"fmt"
 	"go/token"
 	"go/types"
+	"os"
 	"sort"
 	"strings"
 
@@ -111,6 +112,7 @@ type Effect struct {
 	pkg      string          // with all: package of the repo function whose body gave rise to the effect
 	ghost    bool            // with all: specification-only (ghost) state may change too (explicit "modifies *" of a contract)
 	arrField int             // >0: the location is the memory block arrBase(base, arrField-1) of an array-typed field
+	viaKey   string          // elems(x.f): the block behind the slice stored in field key viaKey of object base (read before the call)
 }
 
 // arrayFieldElem: if field i of struct type st is an array, its element type.
@@ -334,11 +336,35 @@ func (p *Prog) contractEffects(so *Sorts, fn *ssa.Function, c *Contract) []Effec
 		if strings.HasPrefix(m, "elems(") {
 			name := strings.TrimSuffix(strings.TrimPrefix(m, "elems("), ")")
 			pnames, ptypes := sigParams(fn)
+			if dot := strings.IndexByte(name, '.'); dot > 0 {
+				// elems(x.f): the elements of the slice held in field f of parameter x
+				for i := range pnames {
+					if pnames[i] != name[:dot] {
+						continue
+					}
+					st, _ := derefStruct(ptypes[i])
+					if fi, ok := findField(st, name[dot+1:]); ok {
+						if sl, isSl := st.Underlying().(*types.Struct).Field(fi).Type().Underlying().(*types.Slice); isSl {
+							es := so.sortOf(sl.Elem())
+							var base ssa.Value = paramValue{i}
+							if i < len(fn.Params) {
+								base = fn.Params[i]
+							}
+							out = append(out, Effect{key: regKeyS(so, "M:"+es, arrSort(sInt, arrSort(sInt, es))), base: base, param: i, viaKey: regFieldKey(so, st, fi)})
+						}
+					}
+				}
+				continue
+			}
 			for i := range pnames {
 				if pnames[i] == name {
 					if st, ok := ptypes[i].Underlying().(*types.Slice); ok {
 						es := so.sortOf(st.Elem())
-						out = append(out, Effect{key: regKeyS(so, "M:"+es, arrSort(sInt, arrSort(sInt, es))), param: -1})
+						var base ssa.Value = paramValue{i}
+						if i < len(fn.Params) {
+							base = fn.Params[i]
+						}
+						out = append(out, Effect{key: regKeyS(so, "M:"+es, arrSort(sInt, arrSort(sInt, es))), base: base, param: i})
 					}
 				}
 			}
@@ -718,7 +744,6 @@ func (ex *Exec) applyEffects(h *Heap, effs []Effect, l *Loop, guard Term) *Heap 
 					ghostToo = true
 				}
 			}
-			nh := ex.havocAllKeep(h, guard, l)
 			// which struct fields / globals can the code behind these effects write at all?
 			anyDyn := false
 			var origins []*ssa.Function
@@ -731,6 +756,19 @@ func (ex *Exec) applyEffects(h *Heap, effs []Effect, l *Loop, guard Term) *Heap 
 				}
 			}
 			keepEval := !anyDyn
+			if os.Getenv("GOVC_DEBUG_HAVOC") != "" {
+				for _, e2 := range effs {
+					if e2.all {
+						var on []string
+						for _, o := range e2.origins {
+							if o != nil {
+								on = append(on, o.Name())
+							}
+						}
+						fmt.Fprintf(os.Stderr, "HAVOC in %s: dyn=%v origins=%v pkg=%s\n", ex.fn.Name(), e2.dyn, on, e2.pkg)
+					}
+				}
+			}
 			// locations named by the other (specific) effects of the same code are written too
 			specific := map[string]bool{}
 			for _, e2 := range effs {
@@ -749,23 +787,33 @@ func (ex *Exec) applyEffects(h *Heap, effs []Effect, l *Loop, guard Term) *Heap 
 						}
 					}
 				}
+				for _, o := range origins {
+					if o != nil && ex.P.declaredWriter(q.so, o, k) {
+						return true
+					}
+				}
 				return false
 			}
 			// code outside package eval (and not running caller-chosen code) cannot write eval's struct fields;
 			// ghost state changes only through explicit "modifies *" / "modifies ghost" clauses
-			nh.gen.parent = h.clone()
-			nh.gen.keep = func(k string) bool {
-				if specific[k] {
-					return false
-				}
-				if keepEval && (strings.HasPrefix(k, "F:") || strings.HasPrefix(k, "G:")) && !strings.HasPrefix(k, "F:anon") {
-					// write audit: no function reachable from the callees stores to this field / global
-					if _, isArr := q.so.keySort[k]; isArr && !canWrite(k) {
-						return true
+			nh := ex.havocAllKeepWith(h, guard, func(nh *Heap) {
+				nh.gen.parent = h.clone()
+				nh.gen.keep = func(k string) bool {
+					if specific[k] {
+						return false
 					}
+					if keepEval && (strings.HasPrefix(k, "F:") || strings.HasPrefix(k, "G:")) && !strings.HasPrefix(k, "F:anon") {
+						// write audit: no function reachable from the callees stores to this field / global
+						if _, isArr := q.so.keySort[k]; isArr && !canWrite(k) {
+							return true
+						}
+					}
+					return !ghostToo && strings.HasPrefix(k, "GH:")
 				}
-				return !ghostToo && strings.HasPrefix(k, "GH:")
-			}
+				nh.gen.keepOld = func(k string) bool {
+					return keepEval && !specific[k] && !canWrite(k)
+				}
+			}, l)
 			return nh
 		}
 	}
@@ -801,6 +849,12 @@ func (ex *Exec) applyEffects(h *Heap, effs []Effect, l *Loop, guard Term) *Heap 
 			if e.arrField > 0 {
 				bt = arrBase(bt, e.arrField-1)
 			}
+			if e.viaKey != "" {
+				bt = sel(q.heapGet(h, e.viaKey), bt) // the slice the field held before the call
+			}
+			if bt.Sort == sSlice {
+				bt = slBase(bt) // elems(s): the block behind the slice
+			}
 			if !seen[bt.S] {
 				seen[bt.S] = true
 				bases = append(bases, bt)
@@ -828,13 +882,19 @@ func (ex *Exec) applyEffects(h *Heap, effs []Effect, l *Loop, guard Term) *Heap 
 		}
 	}
 	if unknownKeys {
-		// materialise everything known, then switch generation
-		for k := range q.so.keySort {
-			if _, ok := nh.m[k]; !ok {
-				nh.m[k] = q.heapGet(nh, k)
+		// keys never used so far may be written: they resolve to fresh symbols of a new generation when first used;
+		// every other key still resolves through the heap before the call
+		written := map[string]bool{}
+		for k := range byKey {
+			if _, ok := q.so.keySort[k]; !ok {
+				written[k] = true
 			}
 		}
-		nh.gen = q.newGen()
+		before := nh.clone()
+		g := q.newGen()
+		g.parent = before
+		g.keep = func(k string) bool { return !written[k] }
+		nh.gen = g
 	}
 	// allocation may have advanced
 	a := q.fresh("alloc", sInt)
@@ -1045,11 +1105,33 @@ func (p *Prog) writersOf(so *Sorts, k string) []*ssa.Function {
 			seen := map[string]bool{}
 			for _, b := range f.Blocks {
 				for _, ins := range b.Instrs {
+					if call, isCall := ins.(ssa.CallInstruction); isCall {
+						for _, kk := range p.memWritesOfCall(scratch, call.Common()) {
+							if !seen[kk] {
+								seen[kk] = true
+								p.writers[kk] = append(p.writers[kk], f)
+							}
+						}
+						continue
+					}
 					st, ok := ins.(*ssa.Store)
 					if !ok {
 						continue
 					}
-					key, _, _, _, ok2 := p.addrEffect(scratch, st.Addr)
+					key, _, fresh, _, ok2 := p.addrEffect(scratch, st.Addr)
+					if ok2 && strings.HasPrefix(key, "M:") {
+						// element stores count unless the block was allocated by this activation
+						if ia, isIA := st.Addr.(*ssa.IndexAddr); isIA {
+							if _, isSl := ia.X.Type().Underlying().(*types.Slice); isSl {
+								fresh = p.freshSlice(ia.X, 0)
+							}
+						}
+						if !fresh && !seen[key] {
+							seen[key] = true
+							p.writers[key] = append(p.writers[key], f)
+						}
+						continue
+					}
 					if !ok2 {
 						// whole-struct store through a pointer: every field
 						if pt, isPtr := st.Addr.Type().Underlying().(*types.Pointer); isPtr {
@@ -1076,15 +1158,178 @@ func (p *Prog) writersOf(so *Sorts, k string) []*ssa.Function {
 	return p.writers[k]
 }
 
+// freshSlice: the slice's backing block was allocated by the activation that computes v (make, a callee whose
+// contract says fresh, or append/re-slicing of such a slice).
+func (p *Prog) freshSlice(v ssa.Value, depth int) bool {
+	return p.freshSlice1(v, map[ssa.Value]bool{})
+}
+
+func localArrayAddr(v ssa.Value) bool {
+	for i := 0; i < 6; i++ {
+		switch x := v.(type) {
+		case *ssa.Alloc:
+			return true
+		case *ssa.FieldAddr:
+			v = x.X
+		default:
+			return false
+		}
+	}
+	return false
+}
+
+func (p *Prog) freshSlice1(v ssa.Value, seen map[ssa.Value]bool) bool {
+	if seen[v] {
+		return true // a cycle through phi nodes adds no other origin
+	}
+	seen[v] = true
+	switch x := v.(type) {
+	case *ssa.MakeSlice:
+		return true
+	case *ssa.Slice:
+		if _, isSl := x.X.Type().Underlying().(*types.Slice); isSl {
+			return p.freshSlice1(x.X, seen)
+		}
+		return localArrayAddr(x.X) // slice of (a field of) a local array variable
+	case *ssa.Call:
+		if b, ok := x.Call.Value.(*ssa.Builtin); ok && b.Name() == "append" {
+			return p.freshSlice1(x.Call.Args[0], seen)
+		}
+		if f := staticCallee(&x.Call); f != nil {
+			if c := p.contracts.get(funcKey(f)); c != nil && c.Fresh {
+				return true
+			}
+		}
+	case *ssa.Phi:
+		for _, e := range x.Edges {
+			if !p.freshSlice1(e, seen) {
+				return false
+			}
+		}
+		return true
+	case *ssa.Const:
+		return x.Value == nil // nil slice: append allocates
+	}
+	return false
+}
+
+// memWritesOfCall: memory keys whose pre-existing blocks the call instruction itself may write (append into spare
+// capacity, copy, external callees receiving slices).
+func (p *Prog) memWritesOfCall(so *Sorts, cc *ssa.CallCommon) []string {
+	memKeyOf := func(et types.Type) string {
+		es := so.sortOf(et)
+		return regKeyS(so, "M:"+es, arrSort(sInt, arrSort(sInt, es)))
+	}
+	var out []string
+	if b, ok := cc.Value.(*ssa.Builtin); ok {
+		switch b.Name() {
+		case "append", "copy":
+			if st, isSl := cc.Args[0].Type().Underlying().(*types.Slice); isSl && !p.freshSlice(cc.Args[0], 0) {
+				out = append(out, memKeyOf(st.Elem()))
+			}
+		}
+		return out
+	}
+	f := staticCallee(cc)
+	if f == nil || len(f.Blocks) > 0 || p.externPure(f) {
+		return nil // repo functions are visited themselves; dynamic calls are handled as "anything"
+	}
+	for _, a := range cc.Args {
+		switch t := a.Type().Underlying().(type) {
+		case *types.Slice:
+			if !p.freshSlice(a, 0) {
+				out = append(out, memKeyOf(t.Elem()))
+			}
+		case *types.Pointer:
+			if at, isArr := t.Elem().Underlying().(*types.Array); isArr {
+				out = append(out, memKeyOf(at.Elem()))
+			}
+		}
+	}
+	return out
+}
+
 // reaches: w is reachable from f through static calls, closures created, and interface dispatch to repo methods.
+// Functions whose contract lists their write effects explicitly (a modifies clause without "*"/"heap") are not
+// looked into: what they write is what the contract says (checked by their frame obligations, or trusted and
+// reported when the contract says trustframe / assumed).
 func (p *Prog) reaches(f, w *ssa.Function) bool {
+	return p.auditReach(f)[w]
+}
+
+func (p *Prog) auditReach(f *ssa.Function) map[*ssa.Function]bool {
 	if p.reachCache == nil {
 		p.reachCache = map[*ssa.Function]map[*ssa.Function]bool{}
 	}
-	r, ok := p.reachCache[f]
-	if !ok {
-		r = p.reachableFrom([]*ssa.Function{f})
-		p.reachCache[f] = r
+	if r, ok := p.reachCache[f]; ok {
+		return r
 	}
-	return r[w]
+	seen := map[*ssa.Function]bool{}
+	var work []*ssa.Function
+	push := func(g *ssa.Function) {
+		if g != nil && !seen[g] {
+			seen[g] = true
+			work = append(work, g)
+		}
+	}
+	push(f)
+	for len(work) > 0 {
+		g := work[len(work)-1]
+		work = work[:len(work)-1]
+		if g != f && p.explicitFrame(g) {
+			continue
+		}
+		for _, b := range g.Blocks {
+			for _, ins := range b.Instrs {
+				for _, op := range ins.Operands(nil) {
+					if *op == nil {
+						continue
+					}
+					switch v := (*op).(type) {
+					case *ssa.Function:
+						push(v)
+					case *ssa.MakeClosure:
+						push(v.Fn.(*ssa.Function))
+					}
+				}
+				if ci, ok := ins.(ssa.CallInstruction); ok && ci.Common().IsInvoke() {
+					for _, t := range p.invokeTargets(ci.Common()) {
+						push(t)
+					}
+				}
+			}
+		}
+	}
+	p.reachCache[f] = seen
+	return seen
+}
+
+// explicitFrame: the function's contract enumerates what it writes.
+func (p *Prog) explicitFrame(g *ssa.Function) bool {
+	c := p.contracts.get(funcKey(g))
+	if c == nil || !c.HasMod {
+		return false
+	}
+	for _, m := range c.Modifies {
+		if m == "*" || m == "heap" || m == "callbacks" {
+			return false
+		}
+	}
+	return true
+}
+
+// declaredWriter: some function with an explicit frame reachable from f lists heap key k in its modifies clause.
+func (p *Prog) declaredWriter(so *Sorts, f *ssa.Function, k string) bool {
+	for g := range p.auditReach(f) {
+		if g == f || !p.explicitFrame(g) {
+			continue
+		}
+		c := p.contracts.get(funcKey(g))
+		for _, e := range p.contractEffects(so, g, c) {
+			if e.key == k {
+				return true
+			}
+		}
+	}
+	return false
 }
